@@ -102,6 +102,20 @@ def main():
             s2 = index.get((xx, yy))
             if s2 is not None and not (abs(s - s2) <= MC.tol(s, 2.0)):
                 V.violation(f'symmetry:{label}:Y={list(yy)} X={list(xx)}', f'score(Y,X)={s!r} but score(X,Y)={s2!r}', {'y': yy, 'x': xx})
+        # the same pairs through the dispatcher importance_estimator.numba_mi (heuristic MI-numba), as a flat vector and as the
+        # single-column (n, 1) array the pipeline builds when a reference model is given
+        step = max(1, len(cases) // (300 if tier == 'quick' else 3000))
+        sub = list(range(0, len(cases), step))
+        for shape in ('flat', 'col'):
+            gw, cw = MC.real_eval('numba_mi', [[cases[i]['y'], cases[i]['x'], 'MI-numba', 1.0, shape] for i in sub])
+            for i, s in zip(sub, gw):
+                c = cases[i]
+                if s is None:
+                    continue
+                e = O.vec_value(c['vec'], len(c['y']))
+                if not (abs(s - e) <= MC.tol(e, O.entropy(c['y']))):
+                    V.violation(f'dispatcher:{label}:{shape}:Y={c["y"]} X={c["x"]}', f'numba_mi(first vector of shape {"(n,)" if shape == "flat" else "(n, 1)"}, "MI-numba") = {s!r} != plug-in MI {e!r}', c)
+            V.count(evaluations=len(sub), nontrivial=len(sub), traces=len(sub) - len(cw))
         V.count(evaluations=len(cases), nontrivial=nontriv, traces=len(cases) - len(crashes))
         V.add_sample({'family': label, 'Y': cases[len(cases) // 2]['y'], 'X': cases[len(cases) // 2]['x'],
                       'spec_vector_n_times_MI': cases[len(cases) // 2]['vec'], 'real_score': got[len(cases) // 2]})
